@@ -5,6 +5,7 @@ use vcore::runner::{unhex, Mode, Report, Tier};
 mod c08;
 mod c09;
 mod c10;
+mod c20;
 
 fn main() {
     let args: Vec<String> = std::env::args().collect();
@@ -31,6 +32,7 @@ fn main() {
         "C08" => c08::run(report),
         "C09" => c09::run(report),
         "C10" => c10::run(report),
+        "C20" => c20::run(report),
         _ => {
             eprintln!("unknown property {id}");
             std::process::exit(2)
